@@ -1,6 +1,7 @@
 /-
   C11 — the (row, column) of a cursor index lies inside the lines of the split document
-  (`rowOf_lt`, `colOf_le`), so the end-to-end theorem needs no hypothesis about them.
+  (`rowOf_lt`, `colOf_le`), so the end-to-end theorem needs no hypothesis about them;
+  `Document.translate_row_col_to_index` inverts them (`rowColToIndex_rowcol`, used by the mouse theorems).
 -/
 import Ptk.Model.C11
 namespace Ptk.C11
@@ -127,5 +128,87 @@ theorem colOf_le (text : Text) : ∀ cur,
             obtain ⟨r, hr2⟩ : ∃ r, rowOf xs k = r + 1 := ⟨rowOf xs k - 1, by omega⟩
             rw [hr2] at ihk ⊢
             simpa [List.getD] using ihk
+
+/-! ### `translate_row_col_to_index` undoes (cursor_position_row, cursor_position_col) -/
+
+theorem rowOf_cons (x : Char) (xs : Text) (k : Nat) :
+    rowOf (x :: xs) (k + 1) = rowOf xs k + (if x = '\n' then 1 else 0) := by
+  by_cases hx : x = '\n' <;> simp [rowOf, hx]
+
+theorem all_notNl_iff_row0 (xs : Text) (k : Nat) :
+    (xs.take k).reverse.all notNl = true ↔ rowOf xs k = 0 := by
+  unfold rowOf
+  rw [List.length_eq_zero_iff, List.filter_eq_nil_iff, List.all_eq_true]
+  constructor
+  · intro h a ha
+    have := h a (by simpa using ha)
+    simpa [notNl] using this
+  · intro h a ha
+    have := h a (by simpa using ha)
+    simpa [notNl] using this
+
+theorem colOf_cons (x : Char) (xs : Text) (k : Nat) :
+    colOf (x :: xs) (k + 1) =
+      if x = '\n' then colOf xs k else if rowOf xs k = 0 then colOf xs k + 1 else colOf xs k := by
+  rw [colOf_eq, colOf_eq]
+  simp only [List.take_succ_cons, List.reverse_cons]
+  by_cases hx : x = '\n'
+  · subst hx
+    rw [takeWhile_snoc_false _ _ _ (by simp [notNl])]; simp
+  · rw [if_neg hx, takeWhile_snoc_true _ _ _ (by simp [notNl, hx])]
+    by_cases hall : (xs.take k).reverse.all notNl = true
+    · rw [if_pos hall, if_pos ((all_notNl_iff_row0 xs k).mp hall)]
+      rw [takeWhile_all _ _ (by intro a ha; rw [List.all_eq_true] at hall; exact hall a ha)]
+    · rw [if_neg hall, if_neg (fun h => hall ((all_notNl_iff_row0 xs k).mpr h))]
+
+/-- `translate_row_col_to_index` for a non-negative column -/
+theorem rowColToIndex_nat (text : Text) (row col : Nat) (h : row < (splitOn '\n' text).length) :
+    rowColToIndex text row (col : Int) =
+      min ((((splitOn '\n' text).take row).map fun (l : Text) => l.length + 1).sum +
+        min col ((splitOn '\n' text).getD row []).length) text.length := by
+  unfold rowColToIndex
+  simp only [h, if_true]
+  omega
+
+/-- **translate_row_col_to_index inverts (cursor_position_row, cursor_position_col)** -/
+theorem rowColToIndex_rowcol (text : Text) : ∀ cur, cur ≤ text.length →
+    rowColToIndex text (rowOf text cur) (colOf text cur : Nat) = cur := by
+  induction text with
+  | nil => intro cur h; simp at h; subst h; simp [rowColToIndex, rowOf, colOf, splitOn]
+  | cons x xs ih =>
+    intro cur h
+    rw [rowColToIndex_nat _ _ _ (rowOf_lt _ _)]
+    cases cur with
+    | zero => simp [rowOf, colOf]
+    | succ k =>
+      have hk : k ≤ xs.length := by simpa using h
+      have ihk := ih k hk
+      rw [rowColToIndex_nat _ _ _ (rowOf_lt _ _)] at ihk
+      rw [rowOf_cons, colOf_cons]
+      have hne := splitOn_ne_nil xs
+      by_cases hx : x = '\n'
+      · subst hx
+        simp only [if_true, splitOn, List.take_succ_cons, List.map_cons, List.sum_cons, List.length_nil,
+          List.length_cons]
+        have : ((([] : Text) :: splitOn '\n' xs).getD (rowOf xs k + 1) []) = (splitOn '\n' xs).getD (rowOf xs k) [] := by
+          simp [List.getD]
+        rw [this]; omega
+      · simp only [hx, if_false, Nat.add_zero, splitOn]
+        cases hs : splitOn '\n' xs with
+        | nil => exact absurd hs hne
+        | cons l ls =>
+          rw [hs] at ihk
+          simp only [List.length_cons]
+          by_cases hr : rowOf xs k = 0
+          · rw [hr] at ihk ⊢
+            simp only [if_true, List.take_zero, List.map_nil, List.sum_nil, Nat.zero_add] at ihk ⊢
+            simp only [List.getD, List.getElem?_cons_zero, Option.getD_some, List.length_cons] at ihk ⊢
+            omega
+          · obtain ⟨r, hr2⟩ : ∃ r, rowOf xs k = r + 1 := ⟨rowOf xs k - 1, by omega⟩
+            rw [hr2] at ihk ⊢
+            simp only [Nat.succ_ne_zero, if_false, List.take_succ_cons, List.map_cons, List.sum_cons,
+              List.length_cons] at ihk ⊢
+            simp only [List.getD, List.getElem?_cons_succ] at ihk ⊢
+            omega
 
 end Ptk.C11
